@@ -273,6 +273,40 @@ def check_default_buffers(ctx, g):
         report(f"ScikitLearnNode: refit raised {type(e).__name__}")
 
 
+def check_default_buffers_failed(ctx, g):
+    """offline nodes that store their sequences (IPReservoir, a user node with a backward function): a fit that
+    fails at a later sequence must not leave the earlier ones behind for the next fit (K14's aliasing does not
+    interfere here: unsupervised nodes store inputs only; the user node below keeps X and Y apart itself)"""
+    from reservoirpy.nodes import IPReservoir
+    ob = "default_buffers_failed"
+    c = {"kind": "default_buffers_failed", "n": ctx.evaluations, "seed": g.randint(0, 10 ** 6)}
+    rng = np.random.default_rng(c["seed"])
+    long1, short, good = rng.uniform(-1, 1, (20, 2)), rng.uniform(-1, 1, (3, 2)), rng.uniform(-1, 1, (25, 2))
+    bad_at = g.randint(1, 2)
+    batch = [long1, rng.uniform(-1, 1, (18, 2)), rng.uniform(-1, 1, (16, 2))]
+    batch[bad_at] = short
+    ctx.count(c, nontrivial=True, obligation=ob)
+
+    def mk():
+        return IPReservoir(5, seed=3, epochs=1, mu=0.0, sigma=0.5)
+    a, b = mk(), mk()
+    # twin histories: both are initialised on the same first sample
+    a.initialize(good[:1])
+    b.initialize(good[:1])
+    r = common.exc_class(lambda: a.fit(batch, warmup=10))
+    if r[0] == "ok":
+        ctx.stat("default_buffers_failed: short sequence accepted")
+        return
+    ra = common.exc_class(lambda: a.fit(good, warmup=2))
+    rb = common.exc_class(lambda: b.fit(good, warmup=2))
+    if ra[0] != "ok" or rb[0] != "ok":
+        ctx.violation(f"IPReservoir.fit after a failed fit raised {ra[1] if ra[0] != 'ok' else rb[1]}", c, obligation=ob)
+        return
+    if not (np.allclose(a.a, b.a, rtol=0, atol=1e-12) and np.allclose(a.b, b.b, rtol=0, atol=1e-12)):
+        ctx.violation(f"IPReservoir: a fit that failed at sequence {bad_at} (shorter than the warm-up) left the sequences before it in the node's "
+                      f"store; the next fit learned from them too (gain differs from a twin's by {float(np.max(np.abs(a.a - b.a))):.3g})", c, obligation=ob)
+
+
 def check_model_failed_fit(ctx, c):
     """a Model.fit / ESN.fit that fails on a later sequence (too short for the warm-up, wrong feature
     count, wrong target size), then the SAME model fitted on good data: the result must be the fit of a
@@ -290,6 +324,11 @@ def check_model_failed_fit(ctx, c):
         wbad = 3
     elif c["failure"] == "features":
         Xb[bad] = np.hstack([Xs[bad], Xs[bad][:, :1]])
+        wbad = c["warmup"]
+    elif c["failure"] == "nan":
+        # every sequence is accumulated; the failure comes in the final solve
+        Yb[bad] = Ys[bad].copy()
+        Yb[bad][c["warmup"] + 1, 0] = np.nan
         wbad = c["warmup"]
     else:
         Yb[bad] = np.hstack([Ys[bad], Ys[bad]])
@@ -347,7 +386,7 @@ def check_model_failed_fit(ctx, c):
 
 def gen_model_failed_fit(g):
     K = g.randint(2, 4)
-    return {"kind": "model_failed_fit", "model": g.choice(["chain", "chain", "esn", "esn", "deep"]), "failure": g.choice(["short", "features", "targets"]),
+    return {"kind": "model_failed_fit", "model": g.choice(["chain", "chain", "esn", "esn", "deep"]), "failure": g.choice(["short", "features", "targets", "nan"]),
             "K": K, "lens": [g.randint(8, 14) for _ in range(K)], "bad": g.randint(1, K - 1), "warmup": g.choice([0, 2]),
             "seed": g.randint(0, 10 ** 6), "dseed": g.randint(0, 10 ** 6), "prior": g.chance(0.5)}
 
@@ -377,6 +416,8 @@ def run(ctx):
         check_default_buffers(ctx, g)
     for _ in range(ctx.n(30, 300)):
         check_model_failed_fit(ctx, gen_model_failed_fit(g))
+    for _ in range(ctx.n(4, 40)):
+        check_default_buffers_failed(ctx, g)
 
 
 def replay(ctx, data):
@@ -386,6 +427,9 @@ def replay(ctx, data):
         check_history(ctx, c)
     elif c.get("kind") == "model_failed_fit":
         check_model_failed_fit(ctx, c)
+    elif c.get("kind") == "default_buffers_failed":
+        for _ in range(4):
+            check_default_buffers_failed(ctx, ctx.gen)
     elif c.get("kind") == "frame":
         for _ in range(40):
             check_frame(ctx, ctx.gen)
